@@ -13,7 +13,8 @@ import re, subprocess, collections
 FORBIDDEN_EXACT = {
     "malloc", "calloc", "realloc", "free", "posix_memalign", "aligned_alloc", "memalign", "valloc", "strdup", "strndup",
     "pthread_mutex_lock", "pthread_mutex_trylock", "pthread_mutex_timedlock", "pthread_mutex_unlock",
-    "pthread_rwlock_rdlock", "pthread_rwlock_wrlock", "pthread_spin_lock", "sem_wait",
+    "pthread_rwlock_rdlock", "pthread_rwlock_wrlock", "pthread_spin_lock", "sem_wait", "pthread_cond_wait", "pthread_cond_timedwait",
+    "flockfile", "mtx_lock",
     "__cxa_allocate_exception", "__cxa_throw", "__cxa_rethrow", "__cxa_guard_acquire",
     "fopen", "fclose", "printf", "fprintf", "puts",
 }
@@ -33,7 +34,9 @@ ALLOWED_EXTERNAL = {
     "__snprintf_chk", "__memcpy_chk", "__memset_chk", "__strcpy_chk", "__strncpy_chk", "roundf", "floorf", "round", "floor",
     "expf", "logf", "powf", "fabsf", "lrintf", "lroundf", "fmodf", "__isoc99_sscanf", "sscanf",
     "memchr", "memcmp", "strnlen", "strspn", "strcspn", "strpbrk", "strtoul", "strtod", "strtof", "tolower", "toupper",
-    "abs", "labs", "bcmp", "__builtin_memcpy", "__builtin_memset", "_GLOBAL_OFFSET_TABLE_",
+    "abs", "labs", "bcmp", "sqrtf", "sqrt", "sinf", "cosf", "exp", "log", "pow", "fabs", "ceilf", "ceil", "truncf", "fminf", "fmaxf",
+    "log2f", "log10f", "exp2f", "__cxa_pure_virtual", "strcat", "strncat", "__strcat_chk", "strtok_r", "isalnum", "isupper", "islower",
+    "isxdigit", "__ctype_tolower_loc", "__ctype_toupper_loc", "atol", "atoll", "strtoll", "strtoull", "qsort", "bsearch", "__builtin_memcpy", "__builtin_memset", "_GLOBAL_OFFSET_TABLE_",
 }
 
 
